@@ -82,7 +82,7 @@ func init() {
 								if len(s.Lhs) != 1 || len(s.Rhs) != 1 || !isFieldOf(info, s.Lhs[0], unc) {
 									return true
 								}
-								if mentionsField(info, s.Rhs[0], all, "") {
+								if mentionsField(info, s.Rhs[0], all, "") || mentionsCopyOf(info, f, s.Rhs[0], all) {
 									if underSQ {
 										fullUnderSubQuery = true
 									}
@@ -108,4 +108,48 @@ func init() {
 			}
 			r.Floor(rule, 2, n)
 		})
+}
+
+// mentionsCopyOf: the expression mentions a local whose only definition reads the field (allStreams := mgr.allStreams).
+func mentionsCopyOf(info *types.Info, f *Fn, e ast.Node, fld *types.Var) bool {
+	hit := false
+	ast.Inspect(e, func(x ast.Node) bool {
+		id, ok := x.(*ast.Ident)
+		if !ok || hit {
+			return !hit
+		}
+		v, ok := info.Uses[id].(*types.Var)
+		if !ok || v.IsField() {
+			return true
+		}
+		nDef, fromField := 0, false
+		for g := f; g != nil; g = g.Parent {
+			ast.Inspect(g.Body(), func(y ast.Node) bool {
+				as, ok := y.(*ast.AssignStmt)
+				if !ok || len(as.Lhs) != len(as.Rhs) {
+					return true
+				}
+				for i, l := range as.Lhs {
+					if identObj(info, l) == types.Object(v) {
+						nDef++
+						ast.Inspect(as.Rhs[i], func(z ast.Node) bool {
+							if se, ok := z.(*ast.SelectorExpr); ok && info.Uses[se.Sel] == types.Object(fld) {
+								fromField = true
+							}
+							return true
+						})
+					}
+				}
+				return true
+			})
+			if g.Lit == nil {
+				break
+			}
+		}
+		if nDef == 1 && fromField {
+			hit = true
+		}
+		return true
+	})
+	return hit
 }
